@@ -2,10 +2,12 @@
 #include <unistd.h>
 
 // ---------------------------------------------------------------------------------------
-// opt <id> <workdir> <argc> <arg>*          (arguments %XX-escaped, "%" alone = empty string)
+// opt <id> <workdir> <argc> <arg>* <nx> <xarg>*   (arguments %XX-escaped, "%" alone = empty string)
 //   chdir(workdir); ProgramOptions::parse(argv) ; status run|stop|fail ; every bound variable
 //   (through its getter where one exists); save("saved.cfg"); a second, fresh ProgramOptions
-//   parses `--config saved.cfg`; its status and variables (prefix r).
+//   parses `--config saved.cfg`; its status and variables (prefix r).  With nx > 0 a third, fresh
+//   ProgramOptions parses `<xarg>* --config saved.cfg` (the saved file re-read with extra
+//   command-line options): status and variables with prefix x.
 // Config files (and default.cfg) are put into workdir by the caller.
 
 static std::string unesc(const std::string& s)
@@ -124,6 +126,9 @@ static void do_opt()
     int ac = nextl();
     std::vector<std::string> args;
     for (int i = 0; i < ac; i++) args.push_back(unesc(next()));
+    int nx = nextl();
+    std::vector<std::string> xargs;
+    for (int i = 0; i < nx; i++) xargs.push_back(unesc(next()));
     if (chdir(wd.c_str()) != 0) { fprintf(stderr, "chdir %s failed\n", wd.c_str()); exit(3); }
     Display::silent_mode = true;
     printf("case %s\n", id.c_str());
@@ -143,6 +148,17 @@ static void do_opt()
             printf("rstatus %s\n", names[st2]);
             printf("rmessage %s\n", esc(what.substr(0, 200)).c_str());
             if (st2 == 0) dump("r", r);
+            if (nx > 0) {
+                ProgramOptions x;
+                std::vector<std::string> a3 = {args[0]};
+                for (auto& a : xargs) a3.push_back(a);
+                a3.push_back("--config");
+                a3.push_back("saved.cfg");
+                int st3 = do_parse(x, a3, what);
+                printf("xstatus %s\n", names[st3]);
+                printf("xmessage %s\n", esc(what.substr(0, 200)).c_str());
+                if (st3 == 0) dump("x", x);
+            }
         }
     }
     printf("end\n");
